@@ -13,7 +13,7 @@ import numpy as np
 from . import expr as X
 from .proxy import Sym, Escape, lift
 
-TOKEN_ALPHABET = set('0123456789+-.eE infa')     # characters a formatted number can contain
+TOKEN_ALPHABET = set('0123456789+-.eEinfa ')     # characters a formatted number can contain
 
 
 class Tok:
@@ -41,22 +41,45 @@ class Blob:
 
 
 def tok_length(t):
-    """length of a formatted number: int, Sym, or None when not determined by the spec"""
+    """length of a formatted number.  Fixed by the spec when possible; otherwise decided by forking on
+    the magnitude class of the value (each class is a path), so the result is a concrete int."""
     if t.width is not None:
         return t.width
-    m = _SPEC.match(t.spec or '')
-    if m and m.group('type') == 'd' and isinstance(t.val, Sym) and not m.group('sign') and not m.group('grp'):
+    spec = t.spec or ''
+    pct = spec.startswith('%')
+    m = _SPEC.match(spec) if not pct else None
+    v = t.val
+    if pct:
+        mm = _re.match(r'%(?P<flags>[-+ #0]*)(?P<width>\d+)?(?:\.(?P<prec>\d+))?(?P<type>[dif])$', spec)
+        if not mm or mm.group('flags'):
+            return None
+        typ = 'd' if mm.group('type') in 'di' else 'f'
+        w = int(mm.group('width')) if mm.group('width') else 0
+        prec = int(mm.group('prec')) if mm.group('prec') else 6
+    elif spec in ('str', 'r') and isinstance(v, Sym) and v.e.sort == 'I':
+        typ, w, prec = 'd', 0, 0
+    elif m and m.group('type') in ('d', 'f') and not m.group('sign') and not m.group('grp'):
+        typ = m.group('type')
         w = int(m.group('width')) if m.group('width') else 0
-        n = t.val
-        # non-negative n: number of decimal digits, at least w
-        length = X.iconst(max(w, 10))
-        for d in range(9, 0, -1):
-            if d < w:
-                break
-            length = X.ite(X.lt(n.e, X.iconst(10 ** d)), X.iconst(max(w, d)), length)
-        neg = X.lt(n.e, X.iconst(0))
-        return Sym(X.ite(neg, X.iconst(-1), length))       # negative: flagged by callers (not produced by pMuTT ids)
-    return None
+        prec = int(m.group('prec')) if m.group('prec') else 6
+    else:
+        return None
+    if not isinstance(v, Sym):
+        return len((spec % v) if pct else format(v, spec if spec not in ('str', 'r') else ''))
+    neg = 1 if bool(v < 0) else 0
+    a = -v if neg else v
+    if typ == 'd':
+        nd = 1
+        while nd < 18 and not bool(a < 10 ** nd):
+            nd += 1
+        return max(w, nd + neg)
+    # fixed point: the integer part grows when the value rounds up to the next power of ten
+    from fractions import Fraction
+    half = Fraction(1, 2) / Fraction(10) ** prec
+    nd = 1
+    while nd < 18 and not bool(a < Fraction(10) ** nd - half):
+        nd += 1
+    return max(w, nd + neg + (1 + prec if prec else 0))
 
 
 def _is_cell(c):
@@ -103,9 +126,11 @@ class SymStr:
     @staticmethod
     def _cw(c):
         if isinstance(c, Tok):
-            if c.width is None:
-                raise Escape('length of a formatted number of unknown width')
-            return c.width
+            L = tok_length(c)
+            if L is None:
+                raise Escape('length of a formatted number of unknown width (spec %r)' % c.spec)
+            c.width = L if not isinstance(L, Sym) else None
+            return L
         if isinstance(c, Blob):
             raise Escape('concrete length of a symbolic-length run')
         return 1
@@ -229,8 +254,16 @@ class SymStr:
                 r = _int_token_vs_digits(self, o)
                 if r is not None:
                     return r
-                raise Escape('comparison of strings with formatted numbers of different structure')
+                la, lb = self.__symlen__(), o.__symlen__()
+                if isinstance(la, int) and isinstance(lb, int) and la != lb:
+                    return False
+                if len(self.cells) == len(o.cells):
+                    return self._cellwise_eq(o)
+                raise Escape('comparison of strings with formatted numbers of different structure: %r vs %r' % (self, o))
             return False
+        return self._cellwise_eq(o)
+
+    def _cellwise_eq(self, o):
         cond = True
         for a, b in zip(self.cells, o.cells):
             e = cell_eq(a, b)
@@ -274,7 +307,16 @@ class SymStr:
         """condition (bool or Sym) that sub's cells match self's cells starting at cell i"""
         cond = True
         for j, sc in enumerate(sub.cells):
-            e = cell_eq(self.cells[i + j], sc)
+            mine = self.cells[i + j]
+            if isinstance(mine, Tok) and isinstance(sc, str) and sc.isalpha() and len(sub.cells) > 1:
+                # a letter of a longer pattern facing a formatted number: numbers neither start nor end with a
+                # letter, so the letter would sit strictly inside the number's text and both its pattern
+                # neighbours would have to match number characters too
+                alpha = tok_alphabet(mine)
+                nb = [sub.cells[k] for k in (j - 1, j + 1) if 0 <= k < len(sub.cells)]
+                if any(isinstance(x, str) and x not in alpha for x in nb):
+                    return False
+            e = cell_eq(mine, sc)
             if e is False:
                 return False
             if e is True:
@@ -433,6 +475,8 @@ class SymStr:
     def replace(self, old, new, count=-1):
         old, new = SymStr.of(old), SymStr.of(new)
         if not old.cells:
+            if not new.cells:
+                return self
             raise Escape('replace of the empty string')
         out, i, k = [], 0, 0
         while count < 0 or k < count:
@@ -457,21 +501,21 @@ class SymStr:
     def zfill(self, w):
         return self.rjust(w, '0')
 
-    def _map(self, f):
+    def _map(self, f, lo, hi, delta):
         out = []
         for c in self.cells:
             if isinstance(c, str):
                 out.append(f(c))
-            elif isinstance(c, Tok):
+            elif isinstance(c, (Tok, Blob)):
                 out.append(c)
             else:
-                out.append(c)       # callers restrict symbolic chars when case matters
-                if _could_be_letter(c):
-                    raise Escape('case conversion of a symbolic letter')
+                e = c.e
+                inside = X.and_(X.le(X.iconst(lo), e), X.le(e, X.iconst(hi)))
+                out.append(Sym(X.ite(inside, X.add(e, X.iconst(delta)), e)))
         return SymStr(out)
 
-    def upper(self): return self._map(str.upper)
-    def lower(self): return self._map(str.lower)
+    def upper(self): return self._map(str.upper, 97, 122, -32)
+    def lower(self): return self._map(str.lower, 65, 90, 32)
 
     def isdigit(self):
         return len(self.cells) > 0 and all(_truth(in_class(c, 'digit')) for c in self.cells)
@@ -531,6 +575,11 @@ class SymStr:
         cells = list(s.cells)
         if len(cells) == 1 and isinstance(cells[0], Tok):
             return cells[0].val
+        if len(cells) == 2 and isinstance(cells[1], Tok) and not isinstance(cells[0], (Tok, Blob)):
+            if _truth(cell_eq(cells[0], '-')):
+                return -cells[1].val
+            if _truth(cell_eq(cells[0], '+')):
+                return cells[1].val
         if any(isinstance(c, Tok) for c in cells):
             raise ValueError('could not convert string to float (formatted number with extra text)')
         if all(isinstance(c, str) for c in cells):
@@ -589,14 +638,21 @@ def tok_alphabet(t):
     if t.spec.startswith('%'):
         typ = t.spec[-1]
     base = set('0123456789')
-    if m and m.group('sign') == ' ' or (m and m.group('width') and not m.group('zero')):
+    if m and m.group('sign') == ' ':
         base |= {' '}
+    if m and m.group('width') and not m.group('zero'):
+        prec = int(m.group('prec')) if m.group('prec') else 6
+        natural = {'e': 6 + prec, 'E': 6 + prec, 'f': 2 + prec, 'F': 2 + prec, 'd': 1}.get(typ, 1)
+        if int(m.group('width')) > natural:
+            base |= {' '}
     if m and m.group('sign') == '+':
         base |= {'+'}
     if typ in ('d', 'i'):
         return base | {'-'}
     if typ in ('f', 'F'):
         return base | set('-.infa')
+    if typ in ('e', 'E', 'g', 'G'):
+        return base | set('-+.eEinfa')
     if typ is None and not t.spec.startswith('%') and isinstance(t.val, Sym) and t.val.e.sort == 'I':
         return base | {'-'}
     return TOKEN_ALPHABET | base
@@ -769,6 +825,25 @@ def number_token(val, spec):
     return Tok(spec or '', val, width)
 
 
+def number_cells(v, spec):
+    """cells for a formatted symbolic number.  With an explicit sign slot ('{: 2.8E}', '{:+.3f}') the sign
+    character is its own (symbolic) cell, followed by the token of the magnitude: the blank of a
+    non-negative number is a real blank for split()/strip()/indexing, as in the real text."""
+    m = _SPEC.match(spec or '')
+    if m and m.group('sign') in (' ', '+') and m.group('type') in ('e', 'E', 'f', 'F') and not m.group('zero'):
+        tok = number_token(v, spec)
+        if tok.width is not None or m.group('type') in ('f', 'F'):
+            pos = ord(m.group('sign'))
+            e = X.to_real(lift(v))
+            neg = X.lt(e, X.const(0))
+            sign_cell = Sym(X.ite(neg, X.iconst(45), X.iconst(pos)))
+            mag = Sym(X.ite(neg, X.neg(e), e))
+            rest_spec = spec.replace(m.group('sign'), '', 1)
+            rest = Tok(rest_spec, mag, (tok.width - 1) if tok.width is not None else None)
+            return (sign_cell, rest)
+    return (number_token(v, spec),)
+
+
 def format_value(v, spec, conv=None):
     """-> tuple of cells"""
     if isinstance(v, SymStr):
@@ -797,7 +872,7 @@ def format_value(v, spec, conv=None):
     if isinstance(v, Sym):
         if conv is not None:
             raise Escape('conversion !%s of a symbolic number' % conv)
-        return (number_token(v, spec),)
+        return number_cells(v, spec)
     if conv == 'r':
         v = repr(v)
     elif conv == 's':
@@ -984,10 +1059,57 @@ def sym_len(x):
     return len(x)
 
 
+VFS = {}        # name -> SymStr / str content of in-memory text files
+
+
+class _MemFile:
+    def __init__(self, name, mode):
+        self.name, self.mode = name, mode
+        self.buf = []
+
+    def __enter__(self):
+        return self
+
+    def __exit__(self, *a):
+        self.close()
+        return False
+
+    def close(self):
+        if 'w' in self.mode:
+            out = SymStr(())
+            for piece in self.buf:
+                out = out + piece
+            VFS[self.name] = out
+
+    def write(self, text):
+        self.buf.append(SymStr.of(text) if not isinstance(text, SymStr) else text)
+
+    def _content(self):
+        c = VFS[self.name]
+        return c if isinstance(c, SymStr) else SymStr(c)
+
+    def read(self):
+        return self._content()
+
+    def readlines(self):
+        return self._content().splitlines(keepends=True)
+
+    def __iter__(self):
+        return iter(self.readlines())
+
+
+def sym_open(name, mode='r', *a, **kw):
+    if isinstance(name, str) and name.startswith('mem://'):
+        return _MemFile(name, mode)
+    import builtins
+    return builtins.open(name, mode, *a, **kw)
+
+
 def install():
     from . import loader
     loader.fmt_hook[0] = fmt_hook
     loader.extra_globals['str'] = sym_str
     loader.extra_globals['len'] = sym_len
+    loader.extra_globals['open'] = sym_open
     from . import symre
     loader.module_patches['re'] = ('re', symre.module)
